@@ -60,12 +60,20 @@ class Verdict:
 
 
 class Suite:
+    # solver suites: every `thread_every`-th case is run a second time with bldfm.config.NUM_THREADS = 2 / 4 (the
+    # properties quantify over every solve, whatever the runtime thread setting; the numba kernel has a serial and a
+    # parallel variant).  The case parameter "_threads" is consumed here, never seen by the kind.
+    SOLVER_PROPS = ("C01", "C02", "C03", "C04", "C05", "C06", "C07", "C10", "C11")
+
     def __init__(self, prop, what, bound, rule):
         self.prop = prop
         self.what = what
         self.bound = bound
         self.rule = rule
         self.kinds = {}
+        self.thread_every = 6 if prop in self.SOLVER_PROPS else 0
+        if self.thread_every:
+            self.bound += "; every %dth case repeated with bldfm.config.NUM_THREADS = 2 or 4 (parallel kernel variant)" % self.thread_every
 
     def kind(self, name):
         def deco(fn):
@@ -74,13 +82,24 @@ class Suite:
         return deco
 
     def run_case(self, kind, params):
+        params = dict(params)
+        threads = params.pop("_threads", None)
         try:
+            if threads:
+                import bldfm.config as _cfg
+                _cfg.NUM_THREADS = int(threads)
             v = self.kinds[kind](**params)
             if not isinstance(v, Verdict):
                 v = Verdict(bool(v))
+            if threads and not v.ok:
+                v.detail = "[NUM_THREADS=%d] %s" % (threads, v.detail)
             return v, None
         except Exception:  # a crash of the real code on an admitted input is reported apart
             return None, traceback.format_exc(limit=8)
+        finally:
+            if threads:
+                import bldfm.config as _cfg
+                _cfg.NUM_THREADS = 1
 
     def main(self, generate):
         ap = argparse.ArgumentParser()
@@ -110,7 +129,14 @@ class Suite:
         errors = []
         samples = []
         per_kind = {}
-        for kind, params in generate(a.tier, rng):
+        def with_threads():
+            k = 0
+            for kind, params in generate(a.tier, rng):
+                yield kind, params
+                k += 1
+                if self.thread_every and k % self.thread_every == 0 and "_threads" not in params:
+                    yield kind, dict(params, _threads=(2, 4)[(k // self.thread_every) % 2])
+        for kind, params in with_threads():
             if a.max_seconds and time.time() - t0 > a.max_seconds:
                 break
             n += 1
